@@ -59,6 +59,22 @@ type Ctx struct {
 	cpuLimit     time.Duration
 	memLimit     uint64
 	running      bool
+	aborted      bool
+}
+
+// Abort ends this worker's shard after the current case: the process state is beyond
+// repair (e.g. a lock that is never released), every further case would only repeat
+// the violation already reported, slowly.
+func (c *Ctx) Abort() {
+	c.mu.Lock()
+	c.aborted = true
+	c.mu.Unlock()
+}
+
+func (c *Ctx) Aborted() bool {
+	c.mu.Lock()
+	defer c.mu.Unlock()
+	return c.aborted
 }
 
 func NewCtx(check, tier, build string, seed uint64, out *os.File) *Ctx {
